@@ -22,7 +22,43 @@ fn okv<T>(r: std::io::Result<T>) -> Option<T> {
     }
 }
 
-type FD = FaultAt<ArrFile<NSTOR>>;
+pub const NDF: usize = SEC * 3; // header + FAT sector + directory sector: small enough for field-sensitive arrays
+type FD = FaultAt<ArrFile<NDF>>;
+
+fn mk_dir_fault(at: usize) -> (crate::internal::Directory<FD>, [EM; 4]) {
+    let mut data = [0u8; NDF];
+    let ff = [0xffu8; SEC];
+    data[soff(0)..soff(0) + SEC].copy_from_slice(&ff);
+    put32(&mut data, soff(0), FATSECT);
+    put32(&mut data, soff(0) + 4, EOC);
+    let mut root = em_blank();
+    root.ty = 5; root.nlen = 10;
+    let rn = b"Root Entry";
+    let mut k = 0;
+    while k < 10 { root.name[k] = rn[k]; k += 1; }
+    root.color = 1; root.child = 1; root.start = EOC;
+    let mut s1 = em_blank();
+    s1.ty = 2; s1.nlen = 1; s1.name[0] = b's'; s1.color = 1; s1.start = EOC;
+    s1.state = kani::any();
+    let em = [root, s1, em_blank(), em_blank()];
+    let mut entries: Vec<crate::internal::DirEntry> = Vec::with_capacity(5);
+    let mut s = 0;
+    while s < 4 {
+        let b = enc(&em[s]);
+        let off = soff(1) + DIRENT * s;
+        data[off..off + DIRENT].copy_from_slice(&b);
+        entries.push(to_dirent(&em[s]));
+        s += 1;
+    }
+    put32(&mut data, 44, 1); put32(&mut data, 48, 1); put32(&mut data, 60, EOC); put32(&mut data, 76, 0);
+    let file: FD = FaultAt { f: ArrFile::new(data, NDF), armed: true, at, calls: 0, injected: 0,
+                             fail_reads: false, fail_writes: true, fail_seeks: true, fail_flush: false };
+    let sectors = crate::internal::Sectors::new(crate::internal::Version::V3, NDF as u64, file);
+    let mut fat = Vec::with_capacity(4);
+    fat.push(FATSECT); fat.push(EOC);
+    let alloc = aacc::mk(sectors, Vec::new(), vec![0u32], fat, Vec::new());
+    (dacc::mk(alloc, entries, 1), em)
+}
 
 macro_rules! c13_dirent_fault {
     ($name:ident, $at:expr) => {
@@ -30,27 +66,23 @@ macro_rules! c13_dirent_fault {
         #[kani::stub(std::fmt::format, stub_format)]
         #[kani::unwind(140)]
         fn $name() {
-            let p = small_parts(&[1, EOC, EOC], 0, 100, 2, 64);
-            let em = p.em;
-            let file: FD = FaultAt { f: ArrFile::new(p.data, p.len), armed: true, at: $at, calls: 0, injected: 0,
-                                     fail_reads: false, fail_writes: true, fail_seeks: true, fail_flush: false };
-            let mut m = assemble(file, p.len, p.fat, p.entries, p.mf, p.mfree);
+            let (mut d, em) = mk_dir_fault($at);
             let new_len: u64 = kani::any();
             let new_start: u32 = kani::any();
             let bits: u32 = kani::any();
-            let r1 = okv(m.with_dir_entry_mut(1, |e| { e.start_sector = new_start; e.stream_len = new_len; e.state_bits = bits; }));
-            let inj = secacc::inner_mut(aacc::sectors_mut(dacc::allocator_mut(macc::directory_mut(&mut m)))).injected;
+            let r1 = okv(d.with_dir_entry_mut(1, |e| { e.start_sector = new_start; e.stream_len = new_len; e.state_bits = bits; }));
+            let inj = secacc::inner_mut(aacc::sectors_mut(dacc::allocator_mut(&mut d))).injected;
             if inj == 1 {
                 assert!(r1.is_none(), "C13: a seek/write failure while updating a directory entry was swallowed");
             }
-            secacc::inner_mut(aacc::sectors_mut(dacc::allocator_mut(macc::directory_mut(&mut m)))).armed = false;
+            secacc::inner_mut(aacc::sectors_mut(dacc::allocator_mut(&mut d))).armed = false;
             // the caller retries the very same update (flush after a failed flush, setter after a failed setter)
-            let r2 = okv(m.with_dir_entry_mut(1, |e| { e.start_sector = new_start; e.stream_len = new_len; e.state_bits = bits; }));
+            let r2 = okv(d.with_dir_entry_mut(1, |e| { e.start_sector = new_start; e.stream_len = new_len; e.state_bits = bits; }));
             assert!(r2.is_some(), "C13: the retried update failed without a fault");
             let mut want = em[1];
             want.start = new_start; want.len = new_len; want.state = bits;
             let b = enc(&want);
-            let img = &m.inner().f.data;
+            let img = &d.inner().f.data;
             let mut ok = true;
             let mut k = 0;
             while k < DIRENT {
@@ -60,7 +92,7 @@ macro_rules! c13_dirent_fault {
             assert!(ok, "C13/C02/C17: after a failed and successfully retried directory update the entry in the file is not the entry in memory (an Ok that is not durable)");
             kani::cover!(inj == 1, "a fault was injected");
             kani::cover!(true, "end");
-            std::mem::forget(m);
+            std::mem::forget(d);
         }
     };
 }
@@ -80,16 +112,16 @@ c13_dirent_fault!(c13_dirent_fault_at20, 20);
 // reopened file has a mini stream without a MiniFAT), the MiniFAT cell and the
 // root entry must be in the file.
 use crate::internal::{DirEntry, MiniAllocator, Sectors, Version};
-pub const NBF: usize = SEC * (1 + 5 + 3);
+pub const NBF: usize = SEC * (1 + 4); // header, FAT, directory, + the two sectors the scenario appends
 type FBF = FaultAt<ArrFile<NBF>>;
 
 fn mk_bare_fault(at: usize) -> MiniAllocator<FBF> {
-    let fatv = [FATSECT, EOC, FREE, FREE, FREE];
+    let fatv = [FATSECT, EOC];
     let mut data = [0u8; NBF];
     let ff = [0xffu8; SEC];
     data[soff(0)..soff(0) + SEC].copy_from_slice(&ff);
     let mut i = 0;
-    while i < 5 { put32(&mut data, soff(0) + 4 * i, fatv[i]); i += 1; }
+    while i < 2 { put32(&mut data, soff(0) + 4 * i, fatv[i]); i += 1; }
     let mut root = em_blank();
     root.ty = 5; root.nlen = 10;
     let rn = b"Root Entry";
@@ -109,14 +141,14 @@ fn mk_bare_fault(at: usize) -> MiniAllocator<FBF> {
         s += 1;
     }
     put32(&mut data, 44, 1); put32(&mut data, 48, 1); put32(&mut data, 60, EOC); put32(&mut data, 64, 0); put32(&mut data, 76, 0);
-    let len = SEC * 6;
+    let len = SEC * 3;
     let file: FBF = FaultAt { f: ArrFile::new(data, len), armed: true, at, calls: 0, injected: 0,
                               fail_reads: false, fail_writes: true, fail_seeks: true, fail_flush: false };
     let sectors = Sectors::new(Version::V3, len as u64, file);
     let mut fat = Vec::with_capacity(10);
-    let mut free = Vec::with_capacity(10);
+    let free: Vec<u32> = Vec::with_capacity(10);
     i = 0;
-    while i < 5 { fat.push(fatv[i]); if fatv[i] == FREE { free.push(i as u32); } i += 1; }
+    while i < 2 { fat.push(fatv[i]); i += 1; }
     let alloc = aacc::mk(sectors, Vec::new(), vec![0u32], fat, free);
     let dir = dacc::mk(alloc, entries, 1);
     macc::mk(dir, Vec::with_capacity(4), EOC, Vec::with_capacity(4))
